@@ -21,7 +21,7 @@ Digit(n) == CASE n = 0 -> "0" [] n = 1 -> "1" [] n = 2 -> "2" [] n = 3 -> "3" []
 GridName(nk, thr, inst) == "s" \o Digit(nk) \o Digit(thr) \o inst
 
 BaseNames == {"x1", "x2", "x3", "xf", "xs", "xl", "xt0", "xt3", "a1", "a2", "rm", "cn", "pl", "cl", "cu",
-              "b1", "b2", "o1", "o2", "o3", "oh", "oh2", "k64a", "k64b", "ow1", "ow2", "missing", "badidx", "sub0"}
+              "b1", "b2", "o1", "o2", "o3", "oh", "oh2", "k64a", "k64b", "ow1", "ow2", "x1i255", "x1i256", "x1i512", "x1i768", "x1i1024", "missing", "badidx", "sub0"}
 GridNameSet == {"s10a", "s10b", "s10c", "s11a", "s11b", "s11c", "s12a", "s12b", "s12c", "s13a", "s13b", "s13c", "s14a", "s14b", "s14c", "s20a", "s20b", "s20c", "s21a", "s21b", "s21c", "s22a", "s22b", "s22c", "s23a", "s23b", "s23c", "s24a", "s24b", "s24c", "s30a", "s30b", "s30c", "s31a", "s31b", "s31c", "s32a", "s32b", "s32c", "s33a", "s33b", "s33c", "s34a", "s34b", "s34c"}
 SlotNames == BaseNames \cup GridNameSet
 
@@ -98,7 +98,8 @@ SlotDef(n) ==
         [] n = "s34a" -> Sl("OTH", "script", U(1), 3, 4)
         [] n = "s34b" -> Sl("OTH", "script", U(1), 3, 4)
         [] n = "s34c" -> Sl("OTH", "script", U(1), 3, 4)
-        [] OTHER     -> NoSlot      \* "missing", "badidx", "sub0": no such output
+        [] OTHER     -> NoSlot      \* "missing", "badidx", "sub0", "x1i<k>" (index k of the transaction
+                                    \* whose output 0 is x1): no such output
 
 SlotsOf(w) ==
     [n \in SlotNames |-> IF n = "pl" /\ w = "A" THEN NoSlot      \* no pledge pending in world A
